@@ -154,7 +154,10 @@ def gen_insitu(r):
 
 
 def check_insitu(ctx, c):
-    import icontract
+    try:
+        import icontract
+    except ImportError:
+        icontract = None
     import scipy.sparse as sp
     import vectorizers as V
     import vectorizers.linear_optimal_transport as lot
@@ -217,7 +220,14 @@ def check_insitu(ctx, c):
             state["bad"] += 1
         return True  # record-and-continue: the monitor must not alter the observed execution
 
-    contracted = icontract.ensure(plan_ok, error=PlanBroken)(orig_tp)
+    if icontract is not None:
+        contracted = icontract.ensure(plan_ok, error=PlanBroken)(orig_tp)
+    else:  # same postcondition as a plain wrapper
+        def contracted(p, q, cost, max_iter=100000):
+            result = orig_tp(p, q, cost, max_iter)
+            plan_ok(p, q, cost, result)
+            return result
+        ctx.count("icontract_unavailable_plain_wrapper")
     lot.transport_plan, lot.chunked_pairwise_distance = contracted, cpd
     try:
         kw = dict(method="LOT_exact", metric=c["metric"], n_components=min(c["nrows"], c["nref"] * dim), random_state=3, input_method=c["input_method"])
